@@ -39,6 +39,7 @@ CONSTANTS MaxTime,     \* horizon in quarters
           W,           \* ticks of follow-up work per event
           IdleD,       \* on-idle duration (ticks); 0 = no on-idle action configured
           Bug          \* "none" | "no_rewind" (last_tick not set back on a blocked wake-up) | "block_when_counting"
+                       \* | "rem_fix" (not a bug: the proposed repair of the remainder carry)
 Q == 4
 
 VARIABLES pc,        \* "decide" | "recv" | "poll" | "sleep"
@@ -81,7 +82,10 @@ TimeTicks(k, lt) ==
   LET el == (now - lt) + rem
       ms == el \div Q
       k2 == TickN(k, ms)
-  IN [k |-> k2, ms |-> ms, rem |-> el % Q, lastTick |-> IF ms = 0 THEN lt ELSE now]
+      \* Bug = "rem_fix": the proposed repair (proposed_fixes/c07_time_remainder_double_count.diff) - with ms = 0 the
+      \* remainder is left alone because last_tick is kept and the interval will be measured again
+  IN [k |-> k2, ms |-> ms, rem |-> IF ms = 0 /\ Bug = "rem_fix" THEN rem ELSE el % Q,
+      lastTick |-> IF ms = 0 THEN lt ELSE now]
 
 Apply(r, recvd) ==
   /\ kq' = r.k.kq /\ work' = r.k.work /\ done' = r.k.done /\ counting' = r.k.counting /\ fired' = r.k.fired
